@@ -47,7 +47,8 @@ func payload(seed int64, id string, n int) []byte {
 
 func dig(b []byte) string { s := sha1.Sum(b); return hex.EncodeToString(s[:6]) }
 
-var sizeClasses = [][]int{{0, 1, 17}, {4095, 4096, 4097, 5000}, {32767, 32768, 32769, 70001}}
+// (the last value of class 3 lies beyond the 1 MiB the proxy allows a request head: a body is not a head)
+var sizeClasses = [][]int{{0, 1, 17}, {4095, 4096, 4097, 5000}, {32767, 32768, 32769, 70001, 1<<20 + 4097}}
 
 func pickSize(class int, salt int) int {
 	c := sizeClasses[class-1]
